@@ -65,6 +65,7 @@ type Program struct {
 	InitAllow  func(pkgPath string) bool
 	ZeroStub   map[string]bool
 	MustModel  map[string]bool
+	SkipFuncs  map[string]bool // functions replaced by zero results (stated in DESIGN.md)
 	poisoned   map[*ssa.Global]bool
 	reflectPkg *ssa.Package
 	rtypeM     methodSet
@@ -84,6 +85,10 @@ func NewProgram(prog *ssa.Program, vrfPath string, initAllow func(string) bool) 
 			"github.com/cosmos/cosmos-sdk/telemetry":        true,
 		},
 		MustModel: map[string]bool{"cosmossdk.io/math": true, "math/big": true, "time": true},
+		SkipFuncs: map[string]bool{
+			// builds ed25519 validator keys for the Eden/EdenB pseudo-validators (crypto, proto Any): not needed by any harness
+			"github.com/elys-network/elys/x/estaking/keeper.init#1": true,
+		},
 		poisoned:  map[*ssa.Global]bool{},
 	}
 	// one shared fake reflect package
@@ -214,7 +219,8 @@ type Engine struct {
 	prefix   []bool
 	taken    []bool
 	pc       []*Term
-	defs     []*Term // exact definitions of relational rounding variables
+	defs     []*Term // exact definitions (div/mod terms) of relational rounding variables: model validation only
+	refine   []*Term // div-free constraints that make the relational encoding exact (second-stage queries)
 	decls    []string
 	declSet  map[string]bool
 	names    []string
@@ -316,6 +322,7 @@ func (e *Engine) restoreGlobals() {
 func (e *Engine) RunPath(spec *HarnessSpec, res *HarnessResult, prefix []bool) (alts [][]bool) {
 	e.spec, e.res = spec, res
 	e.prefix, e.taken, e.pc, e.defs, e.decls, e.names, e.fresh = prefix, nil, nil, nil, nil, nil, 0
+	e.refine = nil
 	e.declSet = map[string]bool{}
 	e.steps, e.covers, e.obs, e.newWork, e.blobs, e.world = 0, nil, nil, nil, nil, nil
 	e.obsTerms = map[string]*Term{}
@@ -454,7 +461,7 @@ func (e *Engine) pcStrings(extra ...*Term) []string {
 
 func (e *Engine) exactStrings(extra ...*Term) []string {
 	out := e.pcStrings(extra...)
-	for _, t := range e.defs {
+	for _, t := range e.refine {
 		out = append(out, t.String())
 	}
 	return out
@@ -469,7 +476,20 @@ func (e *Engine) feasible(c *Term) string {
 	if c.Op == "false" {
 		return "unsat"
 	}
-	return e.S.Check(e.decls, e.pcStrings(c), e.spec.BranchMs)
+	// Branch feasibility uses the linear part of the path condition only: dropping
+	// conjuncts over-approximates the set of feasible paths (never loses one), and
+	// assertion queries always use the full path condition.
+	if c.Nonlinear() {
+		return "unknown"
+	}
+	out := make([]string, 0, len(e.pc)+1)
+	for _, t := range e.pc {
+		if !t.Nonlinear() {
+			out = append(out, t.String())
+		}
+	}
+	out = append(out, c.String())
+	return e.S.Check(e.decls, out, e.spec.BranchMs)
 }
 
 func (e *Engine) decideAt(fr *frame, instr *ssa.If, c *Term) bool {
@@ -563,7 +583,8 @@ func (e *Engine) checkNeg(neg *Term) (string, map[string]string, bool) {
 	case "unsat":
 		return "unsat", nil, true
 	case "sat":
-		return "sat", e.S.LastModel(e.declNames()), true
+		m2 := e.S.LastModel(e.declNames())
+		return "sat", m2, e.modelIsExact(m2)
 	}
 	if r == "sat" {
 		// relational model only: report it, flagged inexact (must reproduce natively to count)
@@ -586,6 +607,11 @@ func (e *Engine) modelIsExact(m map[string]string) bool {
 	for _, d := range e.defs {
 		v, err := Eval(d, env)
 		if err != nil || v.Sign() == 0 {
+			if os.Getenv("VRF_DEBUG") != "" {
+				lhs, _ := Eval(d.Args[0], env)
+				rhs, e2 := Eval(d.Args[1], env)
+				fmt.Fprintf(os.Stderr, "inexact def: %s  model=%v exact=%v err=%v %v\n", d.String(), lhs, rhs, err, e2)
+			}
 			return false
 		}
 	}
@@ -749,6 +775,9 @@ func (e *Engine) onCall(caller *frame, callpos token.Pos, fn *ssa.Function, args
 			return nil, true
 		}
 		if e.P.ZeroStub[path] && externals[fn.String()] == nil {
+			return zeroResults(fn), true
+		}
+		if e.P.SkipFuncs[fn.String()] {
 			return zeroResults(fn), true
 		}
 	}
